@@ -95,7 +95,7 @@ func loopFacts(s *src, f *facts) {
 	if respLoop != nil && len(respLoop.Body.List) >= 2 {
 		if i, ok := respLoop.Body.List[1].(*ast.IfStmt); ok && strings.HasSuffix(s.str(i.Cond), "!= nil") {
 			exits = len(all[*ast.ReturnStmt](i.Body, nil)) > 0
-			sets = len(s.callsTo(i.Body, "setErr")) > 0
+			sets = topLevelSetErr(s, i.Body)
 		}
 	}
 	f.b("respLoopExitsOnReadErr", exits, s.pos(respLoop))
@@ -292,7 +292,7 @@ func loopFacts(s *src, f *facts) {
 	rexits := false
 	if reqLoop != nil && len(reqLoop.Body.List) >= 2 {
 		if i, ok := reqLoop.Body.List[1].(*ast.IfStmt); ok && strings.HasSuffix(s.str(i.Cond), "!= nil") {
-			rexits = len(all[*ast.ReturnStmt](i.Body, nil)) > 0 && len(s.callsTo(i.Body, "setErr")) > 0
+			rexits = len(all[*ast.ReturnStmt](i.Body, nil)) > 0 && topLevelSetErr(s, i.Body)
 		}
 	}
 	f.b("reqLoopExitsOnReadErr", rexits, s.pos(reqLoop))
@@ -382,4 +382,20 @@ func loopFacts(s *src, f *facts) {
 	f.b("respLoopBlocksOnlyOnRead", onlyRead(respLoop), s.pos(respLoop))
 	f.b("reqFrameFreshPerIteration", declaredIn(reqLoop, "utils.Request["), s.pos(reqLoop))
 	f.b("respFrameFreshPerIteration", declaredIn(respLoop, "utils.Response["), s.pos(respLoop))
+}
+
+// topLevelSetErr: the block reports EVERY error: `setErr(…)` is one of its own statements, not nested under a
+// further condition (e.g. "unless it is a context error").
+func topLevelSetErr(s *src, b *ast.BlockStmt) bool {
+	if b == nil {
+		return false
+	}
+	for _, st := range b.List {
+		if e, ok := st.(*ast.ExprStmt); ok {
+			if c, ok := e.X.(*ast.CallExpr); ok && s.str(c.Fun) == "setErr" {
+				return true
+			}
+		}
+	}
+	return false
 }
